@@ -67,8 +67,8 @@ CHECKS = {
             "TLC exhaustive enumeration of small integer matrices (CorrRem.tla: exact least-squares residual with rank cases, alpha blend, learned affine map; laws ZeroCov, TransformIsFitTransform) + fit_transform/transform replay of every state; direct property checks on seeded real-valued matrices",
             "every matrix (1..2 sensitive + 1..2 other columns, constant and collinear sensitive columns included) is replayed as ndarray (positional ids) and DataFrame (named ids) with shuffled rows, a seeded column layout, alpha in {0, 1/2, 1} and a new-row transform against exact rationals; on 300 (quick) / 4000 real matrices with 1..4 sensitive columns zero covariance, the alpha formula, affinity and training-consistency of transform are checked on the code's output",
             "exact spec covers K <= 2 sensitive columns; K = 3, 4 only by the real-valued direct checks", "5/C15"),
-    "C16": (["AdvUpdate.tla", "Rat.tla"],
-            "TLC enumerates integer gradient tensors and alpha (AdvUpdate.tla: orthogonality law, zero-gradient law, states where a row-pair reading would differ); each state's gradients are forced into the real PytorchEngine.train_step through linear losses (backend= subclass overriding get_loss) and the SGD parameter change compared with the exact rational update; real networks checked against autograd-recomputed updates",
+    "C16": (["AdvUpdate.tla", "AdvUpdateInd.tla", "Rat.tla"],
+            "TLC enumerates integer gradient tensors and alpha (AdvUpdate.tla: orthogonality law, zero-gradient law, states where a row-pair reading would differ); Apalache proves the orthogonality law for arbitrary integer entries of a 4-entry tensor (AdvUpdateInd.tla); each state's gradients are forced into the real PytorchEngine.train_step through linear losses (backend= subclass overriding get_loss) and the SGD parameter change compared with the exact rational update; real networks checked against autograd-recomputed updates",
             "forced cases: every predictor tensor entry equals -lr * g of the specification (2e-5) and the adversary follows the plain gradient; real networks (0-2 hidden layers, widths 1-6, binary/multiclass/continuous targets and sensitive features, demographic parity and equalized odds, fresh initialisation): every predictor and adversary tensor after one step equals the documented update computed from autograd gradients on a deep copy",
             "PyTorch engine only (tensorflow is not installed in this sandbox); float32 tolerance 2e-5", "5/C16"),
     "C17": (["AdvSchedule.tla", "AdvScheduleInd.tla", "AdvTrace.tla", "AdvPredict.tla"],
